@@ -10,19 +10,6 @@ namespace WV.C10
 open Finset WV
 variable {R : Type} [CommRing R]
 
-theorem getN_convT (w g : List R) (P i : Nat) (hi : i < (2*(g.length-1) + w.length) - 2*P) :
-    getN (convT w g P) i = ∑ k ∈ range g.length, getN g k * getZ w ((i:Int) + P - 2*k) := by
-  unfold convT convTFull
-  simp only [length_tab]
-  rw [getN_tab]
-  simp only [hi, if_true]
-  rw [getN_tab]
-  have : i + P < 2*(g.length-1) + w.length := by omega
-  simp only [this, if_true]
-  rw [sumN_eq]
-  apply Finset.sum_congr rfl; intro k _
-  congr 2
-
 /-- the non-periodization modes of `sfb1d` (zero, symmetric, reflect, periodic all share one
 branch): for every pair of bands of equal length `n ≥ 1` and every filter pair of length `L ≥ 2`
 with `2n+2 > L`, the code's result is PyWavelets' `idwt`. -/
